@@ -19,7 +19,7 @@ def nontrivial(sc):
 
 def run(chk, replay=None):
     chk.assumptions += ["reflink is a copy: the feature is off in the default build and on this file system"]
-    return K.drive(chk, replay, "C17", K.gen_c17, K.c17_oracle, nontrivial, n_quick=90, n_thorough=800,
+    return K.drive(chk, replay, "C17", K.gen_c17, K.c17_oracle, nontrivial, n_quick=90, n_thorough=500,
                    rule=("histories = track of 1-2 paths (often equal content) with a requested or the configured method, then a shuffled chain of "
                          "the 4 methods on one path (recheck --recheck-method m, sometimes --force, sometimes all paths) interleaved with deletion, "
                          "in-place edits, replacement + carry-in / track, touch + track --recheck-method, and plain rechecks after deletion (stored "
